@@ -343,6 +343,15 @@ def impl_check(g, gs):
     except Exception as ex:
         return {"err": err_name(ex), "v": None}
 
+def impl_check_stmts(s, ss):
+    """like impl_check, on statements: named gates keep their name and arguments (what a user rule returns)"""
+    from opensquirrel.decomposer.general_decomposer import check_gate_replacement
+    try:
+        check_gate_replacement(W.os_stmt(s), [W.os_stmt(x) for x in ss])
+        return {"err": None, "v": None}
+    except Exception as ex:
+        return {"err": err_name(ex), "v": None}
+
 def req_compose(a, b): return " ".join(["compose"] + W.t_stmt(a) + W.t_stmt(b))
 def impl_compose(a, b):
     from opensquirrel.merger.general_merger import compose_bloch_sphere_rotations
